@@ -259,6 +259,16 @@ def _same(a, b, nit):
     return isinstance(a, ok_types) or isinstance(a, float) == isinstance(b, float)
 
 
+def _non_finite(v):
+    m = getattr(v, "magnitude", v)
+    try:
+        if isinstance(m, Decimal):
+            return not m.is_finite()
+        return isinstance(m, float) and (m != m or m in (float("inf"), float("-inf")))
+    except Exception:  # noqa: BLE001
+        return False
+
+
 def show_res(r):
     if r[0] == "err":
         return r[1]
@@ -293,6 +303,9 @@ def check_tree(ureg, nit, tree, variant, col=None):
             # the same arithmetic error must surface (parse errors are a different class)
             raise Violation(f"different_error:{want[1]}->{got[1]}", f"{text!r}: parse raised {got[1]}, the tree raises {want[1]}")
         return
+    if _non_finite(got[1]) or _non_finite(want[1]):
+        # powers of a (signed) zero: Decimal gives +-Infinity where int/float arithmetic raises; the sign of a zero is not part of the statement
+        raise Skip("non_finite_result")
     if not _same(got[1], want[1], nit):
         k = _classify(tree, variant)
         raise Violation(f"wrong_value:{k}", f"{text!r} -> {show_res(got)}, the tree {tree} gives {show_res(want)}")
